@@ -8,29 +8,12 @@ Open Scope Z_scope.
 
 (** [prefix[0] |= ord(indexbit)]: CPython loads prefix[0] before it evaluates ord(indexbit), and the
     regenerated text says so (index_Z prefix 0 in front of ord_bytes indexbit); the hand model goes
-    straight to ord_bytes.  The two agree because encode_integer never returns an empty bytearray. *)
-Lemma encode_integer_first n N p : Int.encode_integer n N = Ok p -> exists b, index_Z p 0 = Ok b.
-Proof.
-  intros H.
-  destruct (Z_lt_le_dec n 0) as [Hn|Hn]; [rewrite Proofs.Int.enc_refuses in H by lia; discriminate H|].
-  destruct (Z_lt_le_dec N 1) as [H1|H1]; [rewrite Proofs.Int.enc_refuses in H by lia; discriminate H|].
-  destruct (Z_lt_le_dec 8 N) as [H8|H8]; [rewrite Proofs.Int.enc_refuses in H by lia; discriminate H|].
-  destruct (Proofs.Int.encode_integer_ok n N Hn (conj H1 H8)) as (bs & Hb & _ & Hne).
-  rewrite Hb in H. injection H as ->.
-  destruct p as [|b r]; [congruence|]. exists b. apply Proofs.Int.index_Z_0_cons.
-Qed.
-
-Ltac first_octet :=
-  try match goal with
-  | H : Int.encode_integer _ _ = Ok ?p |- context [index_Z ?p 0] =>
-      let b := fresh "b" in let Hb := fresh "Hb" in
-      destruct (encode_integer_first _ _ _ H) as [b Hb]; rewrite Hb
-  end.
-
+    straight to ord_bytes.  The two agree because encode_integer never returns an empty bytearray
+    ([facts] of Bridge/B_dec_lib.v). *)
 Lemma b_Encoder__encode_indexed_literal : forall e i v ib h,
   GEncoder.Encoder__encode_indexed_literal e i v ib h = Encoder.Encoder__encode_indexed_literal i v ib h.
 Proof.
   intros; unfold GEncoder.Encoder__encode_indexed_literal, Encoder.Encoder__encode_indexed_literal.
-  crush_with first_octet.
+  crush.
 Qed.
 Print Assumptions b_Encoder__encode_indexed_literal.
